@@ -1,6 +1,6 @@
 (* Statement pins for area `metadata`: every property theorem checked against its full
    statement written out. *)
-From FlacMeta Require Import Bytes Blocks BlockList Cue Accessors Sniff Blocks_proofs BlockList_proofs Props_C11 Props_C12.
+From FlacMeta Require Import Bytes Blocks BlockList Cue Accessors Sniff Blocks_proofs BlockList_proofs CueRender Props_C11 Props_C12 Props_C20.
 Open Scope N_scope.
 
 Check (C11_block_write_read : forall (utf8_valid : list N -> bool) last b bs rest,
@@ -46,3 +46,10 @@ Check (C12_sniff_total : forall (p : profile) (bytes : list N) k, sniff p bytes 
 Check (C12_block_size_bounded : forall (utf8_valid : list N -> bool) s last b rest,
   Forall byte s -> read_block utf8_valid s = Ok (last, b, rest) -> covered b ->
   exists bs', write_block last b = Ok bs' /\ lenN bs' + lenN rest = lenN s).
+
+Check (C20_import : forall (p : profile) st c total text,
+  wf_cue c -> total mod 588 = 0 -> before_end c total ->
+  cue_text_matches st c text = true ->
+  exists b, block_of c total = Some b /\ cue_parse p total text = Ok b).
+Check (C20_offset_from_str : forall st i, wf_index i -> ci_mm i < 100000000000000000000 ->
+  cdda_offset_from_str (time_text st i) = Some ((ci_ff i + 75 * ci_ss i + 4500 * ci_mm i) * 588)).
